@@ -220,7 +220,7 @@ class Spec(PropSpec):
     coq_targets = ["C06.vo"]
     theorems = ["c06_prefix", "c06_eof_after_all", "c06_handshake_sync", "c06_abort_is_loud", "c06_dup_reacked",
                 "c06_acked_delivered", "c06_sender_progress", "c06_quiescent_complete", "c06_window_update_lost_refuted",
-                "c06_no_spurious_abort_partial", "c06_kernel_uses_tcb_on_conn", "c06_nonvacuous"]
+                "c06_no_spurious_abort_partial", "c06_timeout_exact", "c06_kernel_uses_tcb_on_conn", "c06_nonvacuous"]
     consts = F.NET_CONSTS
     anchors = F.NET_ANCHORS
     harness_bins = ["nettcp"]
@@ -238,13 +238,18 @@ class Spec(PropSpec):
         "segments of an earlier incarnation of the same 4-tuple are outside the connection-level system (client ports are never reused before 16384 further connects)",
         "sequence numbers are unbounded naturals (u32 wrap-around not modelled); packet duplication is modelled although the property excludes it",
         "waker delivery is not modelled: the theorems say what a poll returns, the harness polls with a no-op waker",
-        "liveness (c06_quiescent_complete) is deadlock-freedom over the schedules `fair_run`: nothing injected, no pure window update (the ACK a read emits) dropped before it was delivered or overtaken by an older segment; everything else may be lost, duplicated, reordered; the timed no-spurious-abort statement is partial",
+        "liveness (c06_quiescent_complete) is deadlock-freedom over the schedules `fair_run`: nothing injected, no pure window update (the ACK a read emits) dropped before it was delivered or overtaken by an older segment; everything else may be lost, duplicated, reordered; the timed no-spurious-abort statement is partial (exact abort timing proved, environment derivation not)",
     ]
-    partial_note = ("c06_no_spurious_abort_partial: proved are the local retransmit-counter facts (an abort needs retx_max "
-                    "retransmissions retx_threshold passes apart; every advancing ACK and the handshake completion reset "
-                    "them); not proved: the bound on retransmissions under bounded delay. c06_quiescent_complete is "
-                    "proved for all schedules without a lost/overtaken window update; for the others it is refuted on "
-                    "the code as it is (class ZeroWindowStall, c06_window_update_lost_refuted: no persist probe)")
+    partial_note = ("c06_no_spurious_abort_partial: proved for every schedule are the exact timing of the abort "
+                    "(c06_timeout_exact: TimedOut <=> retx_threshold*(retx_max+1) consecutive timer passes without an ACK that "
+                    "advances snd_una / completes the handshake) and the local counter facts; not proved: that a round-based "
+                    "bounded-delay environment with fewer than retx_max drops per segment yields an advancing ACK inside every "
+                    "budget window - missing are (M1) receiver room when the retransmission arrives (fails after a reordered "
+                    "older ACK re-opened the window, tcb_ack has no SND.WL1/WL2 test, with an idle reader), (M2) the ACK arriving "
+                    "while ackn <= snd_nxt (rewind and re-segmentation are two events of the connection-level system), (M3) the "
+                    "round/drop counting. c06_quiescent_complete is proved for all schedules without a lost/overtaken window "
+                    "update; for the others it is refuted on the code as it is (class ZeroWindowStall, "
+                    "c06_window_update_lost_refuted: no persist probe)")
 
     def gen_cases(self, ctx):
         n = 360 if ctx.tier == "quick" else 3000
